@@ -180,7 +180,12 @@ func tupleAssignableTo(t *TupleType, o px.Type, g px.Guard) bool {
 	if len(t.types) == 0 {
 		return GuardedIsAssignable(o, anyTypeDefault, g)
 	}
-	return allAssignableTo(t.types, o, g)
+	// A declared type at a position beyond the maximal size describes no element
+	types := t.types
+	if int64(len(types)) > t.givenOrActualSize.max {
+		types = types[:t.givenOrActualSize.max]
+	}
+	return allAssignableTo(types, o, g)
 }
 
 func allAssignableTo(types []px.Type, o px.Type, g px.Guard) bool {
